@@ -614,6 +614,8 @@ fn input_contexts(defs: &dmntk_model::model::Definitions, base: &str) -> Vec<Fee
   let mut right = vec![];
   let mut wrong = vec![];
   let mut nulls = vec![];
+  // wrong-kind values of some size: long multi-byte strings behind 0..3 ASCII bytes, a long list, a deep context
+  let mut big: Vec<Vec<String>> = vec![vec![], vec![], vec![], vec![], vec![], vec![]];
   for id in defs.input_data() {
     let name = id.name().to_string();
     if name.is_empty() || name.contains('"') || name.contains(':') || name.contains('{') || name.contains('}') || name.contains(',') {
@@ -634,8 +636,19 @@ fn input_contexts(defs: &dmntk_model::model::Definitions, base: &str) -> Vec<Fee
     right.push(format!("{}: {}", name, r));
     wrong.push(format!("{}: {}", name, w));
     nulls.push(format!("{}: null", name));
+    let long = "\u{17c}".repeat(40) + &"\u{4e2d}".repeat(40) + &"\u{1F600}".repeat(12);
+    for pad in 0..4 {
+      big[pad].push(format!("{}: \"{}{}\"", name, "a".repeat(pad), long));
+    }
+    big[4].push(format!("{}: [{}]", name, (0..40).map(|i| i.to_string()).collect::<Vec<_>>().join(", ")));
+    big[5].push(format!("{}: {}{}{}", name, "{k: ".repeat(40), "-99999999999999999999999999999999.5", "}".repeat(40)));
   }
   let mut texts = vec!["{}".to_string(), format!("{{{}}}", right.join(", ")), format!("{{{}}}", wrong.join(", ")), format!("{{{}}}", nulls.join(", "))];
+  if !right.is_empty() {
+    for b in &big {
+      texts.push(format!("{{{}}}", b.join(", ")));
+    }
+  }
   // real inputs of the base model
   static WORKLOAD: OnceLock<Vec<(String, String)>> = OnceLock::new();
   let wl = WORKLOAD.get_or_init(|| {
@@ -1053,7 +1066,15 @@ impl Sim for C12 {
     }
     Some(format!("C12:{}:{}:{}", rule, how, desc))
   }
-  fn hang_is_inconclusive(&self, plan: &Value) -> bool {
+  fn hang_is_inconclusive(&self, plan: &Value, marker: Option<&str>) -> bool {
+    // the simulator's own large inputs (input classes 4..9: long strings, a list, a deep context) can make
+    // a decision that iterates over its input do legitimately long work
+    if let Some(m) = marker {
+      let parts: Vec<&str> = m.splitn(3, '|').collect();
+      if parts.len() == 3 && parts[0] == "evaluate" && parts[1].parse::<usize>().map(|i| (4..10).contains(&i)).unwrap_or(false) {
+        return true;
+      }
+    }
     // storage faults can splice digits into a range bound: a time-out there is not evidence of a hang
     parr(plan, "faults").iter().any(|f| edits_of(&catalogue(pstr(plan, "base")), pstr(f, "kind"), pu64(f, "index") as usize, pu64(f, "variant") as usize).is_none())
   }
